@@ -18,7 +18,10 @@ RULE = ('sequential histories (each operation runs to completion or to its virtu
         'time vs. an executable reference model; is_locked of every object; descriptors open through the os seam == /proc/self/fd delta == '
         'number of held locks; kernel flock state probed from a fresh descriptor; at the end everything is released per model and every '
         'thread x object must acquire. Under an injected fault the faulted operation may fail or raise, all state checks stay on. '
-        'non-trivial = >=2 operations; distinct by run digest.')
+        '(d) contended: the thread world of C02 (2-4 threads, 1-2 objects, seeded line-level pre-emption, holders releasing exactly at a '
+        'waiter\'s deadline) judged with C12\'s clauses that only show under overlap: a non-blocking attempt returns at once and a timed one '
+        'within 2 x timeout + one poll interval (exact in virtual time), nothing is left locked after every thread released, nobody is '
+        'left waiting for a lock nobody holds. non-trivial = >=2 operations; distinct by run digest.')
 LEVEL_TEXT = ('Bounded-exhaustive enumeration of short histories plus seeded random long ones against an executable reference model, and '
               'exhaustive single-fault (sampled double-fault) injection into every OS call of sampled histories; the kernel lock and the '
               'descriptors are real, time is virtual, so time-out bounds are exact.')
@@ -30,7 +33,7 @@ REAL = ['aiuti.filelock (unmodified source)', 'kernel flock / open / close on tm
         'real OS threads (two workers, one runs at a time)']
 STUB = ['time.time / time.sleep (virtual clock)', 'blocking part of Lock.acquire / flock (try, else park)', 'os / fcntl pass-through shims with a fault switch']
 ASSUMPTIONS = ['Linux; CPython 3.12.1', 'release is called by the acquiring thread (the statement excludes anything else)',
-               'histories are sequential: concurrency is the subject of C02']
+               'batches (a)-(c) use sequential histories; overlapping operations are batch (d) and C02']
 
 
 def batches(tier):
